@@ -713,6 +713,14 @@ def parse_instr(line, mod):
         ins.args, ins.ty = [v], v.ty
     elif op == "fence":
         ins.args = []
+    elif op == "atomicrmw":
+        # atomicrmw [volatile] <operation> <ty>* <pointer>, <ty> <value> <ordering>: executed sequentially (one thread)
+        p.accept("volatile")
+        kind = p.next()[1]
+        ptr = p.parse_typed_value()
+        p.expect(",")
+        v = p.parse_typed_value()
+        ins.args, ins.ty, ins.extra = [ptr, v], v.ty, kind
     else:
         raise ParseError("instruction %r: %s" % (op, line))
     return ins
